@@ -8,10 +8,7 @@ import (
 	"encoding/json"
 	"errors"
 	"fmt"
-	"os"
-	"runtime/pprof"
 	"sort"
-	"time"
 	"strings"
 	"sync"
 
@@ -668,10 +665,5 @@ func replay(r *eng.Run, raw json.RawMessage) {
 
 func main() {
 	_ = sort.Strings
-	if f := os.Getenv("VERIF_C33_PROF"); f != "" {
-		fh, _ := os.Create(f)
-		pprof.StartCPUProfile(fh)
-		go func() { time.Sleep(8 * time.Second); pprof.StopCPUProfile(); fh.Close() }()
-	}
 	eng.Main("C33", "exploration", body, replay)
 }
